@@ -1524,7 +1524,8 @@ def judge_roots(ctx, exe, name, hist, ops, out, replay, agg):
             agg["collections_checked"] += 1
             for i, al in sorted(alive.items()):
                 a = addr.get(i)
-                want = a in reach
+                # identity, not address: when a later object of the history lives at i's address, i itself must be gone
+                want = a in reach and owner.get(a) == i
                 agg["objects_judged"] += 1
                 if al and not want:
                     fail("roots:released-object-not-recycled", k,
